@@ -4,7 +4,8 @@ import HapVerif.Lemmas.C05
 Lemmas for C12: the invariant that holds between the events of every history, whatever the faults
 (`JInv`: the stores are consistent in themselves; while no rewrite is owed the files follow the stores
 and HAProxy follows the files unless a reload is owed or queued), and what one `HAProxyUpdate` with
-any fault makes of it (`upd_outcome`).
+any fault makes of it (`upd_outcome`); the same for the layer of the custom response files (`RInv`,
+`updR_rinv`), from the control flow of the update alone (`upd_flow`).
 -/
 namespace HapVerif.C12
 open HapVerif.C05
@@ -1740,5 +1741,452 @@ theorem qrun_settles {o : Opt} {sh : Sh p} {w : FW p} (hi : FInv o sh w) (hpo : 
   | true =>
     simp only [Bool.not_true, Bool.false_eq_true, if_false, reload, hf]
     exact ⟨by first | rfl | trivial, by first | rfl | trivial, by first | rfl | trivial, runGood_load rfl⟩
+
+/-! ### control flow of one `HAProxyUpdate`: what the flags `reached` / `wroteMain` / `reloaded` of its result say -/
+
+/-- control flow of stages 6 to 8 -/
+theorem post_flow (o : Opt) (sh : Sh p) (f : Fault) (m : Mid p) (hro : m.w.rewriteOwed = true) :
+    (post o sh f m).w.g.committed = true ∧
+    ((post o sh f m).wroteMain = true → (post o sh f m).reached = true) ∧
+    ((post o sh f m).w.rewriteOwed = false → (post o sh f m).reached = true → (post o sh f m).wroteMain = true) ∧
+    ((post o sh f m).w.rewriteOwed = false → (post o sh f m).reached = false → m.updated = true) ∧
+    (f = .mainCfg → (post o sh f m).reached = true → (post o sh f m).wroteMain = false) ∧
+    ((post o sh f m).w.rewriteOwed = false → (post o sh f m).reloaded = false → (post o sh f m).w.pending = false →
+      (post o sh f m).w.reloadOwed = false →
+      m.updated = true ∧ (o.repaired = true → m.w.reloadOwed = false) ∧ m.w.pending = false) := by
+  unfold post
+  dsimp only
+  have hnm : ∀ {b : Bool}, ¬ ((f == Fault.mainCfg || b) = true) → ¬ f = Fault.mainCfg := by
+    intro b h hf; subst hf; simp at h
+  by_cases hdw : (!m.updated || decide (0 < m.sends) || m.bchg) = true
+  · simp only [hdw, Bool.true_and, if_true]
+    split
+    · simp [commitAll, hro]
+    split
+    · rename_i h1 h2
+      simp [commitAll, hro, setDisk]
+      exact hnm h1
+    rename_i h1 h2
+    split
+    · rename_i h3
+      simp only [Bool.and_eq_true, Bool.not_eq_true', Bool.and_eq_false_iff] at h3
+      simp [commitAll, setDisk]
+      refine ⟨hnm h1, fun hp hr => ⟨h3.1, fun _ => hr, hp⟩⟩
+    split
+    · simp [commitAll, setDisk]
+      exact hnm h1
+    · cases hrl : f.isReload <;> simp [commitAll, setDisk, reload, hrl]
+      all_goals exact hnm h1
+  · have hdw' : (!m.updated || decide (0 < m.sends) || m.bchg) = false := by simpa using hdw
+    have hmu : m.updated = true := by cases h : m.updated <;> simp_all
+    simp only [hdw', Bool.false_and, Bool.false_eq_true, if_false]
+    split
+    · rename_i h3
+      simp only [Bool.and_eq_true, Bool.not_eq_true', Bool.and_eq_false_iff] at h3
+      simp [commitAll, hmu]
+      intro hp hr; exact ⟨fun _ => hr, hp⟩
+    split
+    · simp [commitAll, hmu]
+    · cases hrl : f.isReload <;> simp [commitAll, reload, hrl, hmu]
+
+theorem pre_err_flow {o : Opt} {sh : Sh p} {w : FW p} {f : Fault} {r : Res p} (h : pre o sh f w = .error r) :
+    r.w.rewriteOwed = true ∧ r.w.g.committed = true ∧ r.reached = false ∧ r.wroteMain = false ∧ r.reloaded = false := by
+  unfold pre at h
+  split at h
+  · cases h; exact ⟨rfl, rfl, rfl, rfl, rfl⟩
+  unfold pre2 at h
+  split at h
+  · cases h
+    refine ⟨?_, rfl, rfl, rfl, rfl⟩
+    show (tcpStage _ (w0Of w)).rewriteOwed = true
+    simp
+  unfold pre3 at h
+  split at h
+  · cases h
+    refine ⟨?_, rfl, rfl, rfl, rfl⟩
+    show (flagStage _ _ { tcpStage _ (w0Of w) with h := _ }).rewriteOwed = true
+    simp
+  unfold pre4 at h
+  split at h
+  · cases h
+    refine ⟨?_, rfl, rfl, rfl, rfl⟩
+    show (bmStage _ _ _ (flagStage _ _ { tcpStage _ (w0Of w) with h := _ })).rewriteOwed = true
+    simp
+  cases h
+
+/-- control flow of one `HAProxyUpdate`, whatever the fault -/
+theorem upd_flow (o : Opt) (sh : Sh p) (f : Fault) (w : FW p) (hrep : o.repaired = true) :
+    (upd o sh f w).w.g.committed = true ∧
+    ((upd o sh f w).wroteMain = true → (upd o sh f w).reached = true) ∧
+    ((upd o sh f w).w.rewriteOwed = false → (upd o sh f w).reached = true → (upd o sh f w).wroteMain = true) ∧
+    ((upd o sh f w).w.rewriteOwed = false → (upd o sh f w).reached = false →
+      w.rewriteOwed = false ∧ w.g.committed = true) ∧
+    (f = .mainCfg → (upd o sh f w).reached = true → (upd o sh f w).wroteMain = false) ∧
+    ((upd o sh f w).w.rewriteOwed = false → (upd o sh f w).reloaded = false → (upd o sh f w).w.pending = false →
+      (upd o sh f w).w.reloadOwed = false →
+      w.g.committed = true ∧ w.rewriteOwed = false ∧ w.reloadOwed = false ∧ w.pending = false) := by
+  unfold upd
+  cases hpre : pre o sh f w with
+  | error r =>
+    obtain ⟨h1, h2, h3, h4, h5⟩ := pre_err_flow hpre
+    simp only []
+    refine ⟨h2, ?_, ?_, ?_, ?_, ?_⟩
+    · intro h; rw [h4] at h; cases h
+    · intro h; rw [h1] at h; cases h
+    · intro h; rw [h1] at h; cases h
+    · intro _ h; rw [h3] at h; cases h
+    · intro h; rw [h1] at h; cases h
+  | ok m =>
+    simp only []
+    have hm := pre_ok hpre
+    rw [hrep, Bool.true_and] at hm
+    have hro : m.w.rewriteOwed = true := by
+      rw [hm]; unfold dynStage; dsimp only
+      split <;> exact w4Of_rewriteOwed o sh _ w
+    have hrl : m.w.reloadOwed = w.reloadOwed := by
+      rw [hm]; unfold dynStage; dsimp only
+      split <;> exact w4Of_reloadOwed o sh _ w
+    have hpe : m.w.pending = w.pending := by
+      rw [hm]; unfold dynStage; dsimp only
+      split <;> exact w4Of_pending o sh _ w
+    have hup : m.updated = true → w.g.committed = true ∧ w.rewriteOwed = false := by
+      rw [hm]; unfold dynStage; dsimp only
+      intro h
+      simp only [Bool.and_eq_true, Bool.not_eq_true'] at h
+      exact ⟨h.1.1.1.1, h.2⟩
+    obtain ⟨p1, p2, p3, p4, p5, p6⟩ := post_flow o sh f m hro
+    refine ⟨p1, p2, p3, ?_, p5, ?_⟩
+    · intro h1 h2
+      have := hup (p4 h1 h2)
+      exact ⟨this.2, this.1⟩
+    · intro h1 h2 h3 h4
+      obtain ⟨q1, q2, q3⟩ := p6 h1 h2 h3 h4
+      have := hup q1
+      exact ⟨this.1, this.2, by rw [← hrl]; exact q2 hrep, by rw [← hpe]; exact q3⟩
+
+/-! ### the response files (`RW`, `updR`) -/
+
+theorem qrun_flow (sh : Sh p) (f : Fault) (w : FW p) :
+    (qrun sh f w).w.g = w.g ∧ (qrun sh f w).w.rewriteOwed = w.rewriteOwed ∧
+    ((qrun sh f w).reloaded = false → (qrun sh f w).w.pending = false → (qrun sh f w).w.reloadOwed = false →
+      w.pending = false ∧ w.reloadOwed = false) := by
+  unfold qrun
+  cases hp : w.pending with
+  | false => simp [hp]
+  | true => cases hrl : f.isReload <;> simp [reload, hrl]
+
+/-- batch events leave the flags alone; only `config.Clear()` touches `hasCommittedData()` -/
+theorem step_batch_flags (o : Opt) (sh : Sh p) (w : FW p) (e : Ev p) (hne : ∀ f, e ≠ .upd f) (hnq : ∀ f, e ≠ .qrun f) :
+    (step o sh w e).rewriteOwed = w.rewriteOwed ∧ (step o sh w e).reloadOwed = w.reloadOwed ∧
+    (step o sh w e).pending = w.pending ∧
+    ((step o sh w e).g.committed = true → w.g.committed = true ∧ e ≠ .full) := by
+  cases e with
+  | upd f => exact absurd rfl (hne f)
+  | qrun f => exact absurd rfl (hnq f)
+  | full => exact ⟨rfl, rfl, rfl, fun h => by cases h⟩
+  | _ => exact ⟨rfl, rfl, rfl, fun h => ⟨h, fun h' => by cases h'⟩⟩
+
+/-- a response file cannot be written and `writeConfig` gets to it -/
+def respFires (f : RFault) (g : Glob) : Bool := (f == .haResp && g.ha != 0) || f == .luaResp
+
+theorem baseFault_fires {f : RFault} {g : Glob} (h : respFires f g = true) : baseFault f g true = .mainCfg := by
+  cases f with
+  | base f => simp [respFires] at h
+  | haResp =>
+    have : (g.ha != 0) = true := by simpa [respFires] using h
+    simp [baseFault, this]
+  | luaResp => simp [baseFault]
+
+theorem writeResp_main (f : RFault) (g : Glob) (d : RFiles) : (writeResp f g d).main = d.main := by
+  unfold writeResp
+  dsimp only
+  split
+  · rfl
+  split <;> split <;> rfl
+
+theorem writeResp_mono (f : RFault) (g : Glob) (d : RFiles) :
+    (d.lua.isSome = true → (writeResp f g d).lua.isSome = true) ∧
+    (d.ha.isSome = true → (writeResp f g d).ha.isSome = true) := by
+  unfold writeResp
+  dsimp only
+  split
+  · exact ⟨id, id⟩
+  split <;> split <;> simp
+
+theorem writeResp_loadable (f : RFault) (g : Glob) (d : RFiles) (h : loadable d = true) :
+    loadable (writeResp f g d) = true := by
+  have hm := writeResp_main f g d
+  have hmono := writeResp_mono f g d
+  unfold loadable at h ⊢
+  rw [hm]
+  cases hmn : d.main with
+  | none => rfl
+  | some b =>
+    rw [hmn] at h
+    simp only [Bool.and_eq_true, Bool.or_eq_true, Bool.not_eq_true'] at h ⊢
+    exact ⟨hmono.1 h.1, h.2.imp id hmono.2⟩
+
+theorem respDisk_wrote {f : RFault} {g : Glob} {r : Res p} {d : RFiles} (hm : r.wroteMain = true)
+    (hr : r.reached = true) :
+    respDisk f g true r d = { writeResp f g d with main := some (g.ha != 0) } := by
+  simp [respDisk, hm, hr]
+
+theorem respDisk_notMain {f : RFault} {g : Glob} {r : Res p} {d : RFiles} (hm : r.wroteMain = false) :
+    respDisk f g true r d = if r.reached then writeResp f g d else d := by
+  simp [respDisk, hm]
+
+/-- no response file fails: all of them hold the global config afterwards -/
+theorem writeResp_done {f : RFault} {g : Glob} (d : RFiles) (h : respFires f g = false) :
+    (writeResp f g d).lua = some g.lua ∧ (g.ha ≠ 0 → (writeResp f g d).ha = some g.ha) := by
+  unfold respFires at h
+  simp only [Bool.or_eq_false_iff] at h
+  unfold writeResp
+  dsimp only
+  rw [if_neg (by simp [h.1]), if_neg (by simp [h.2])]
+  refine ⟨rfl, ?_⟩
+  intro hg
+  have : (g.ha != 0) = true := by simpa using hg
+  simp [this]
+
+/-- files that already hold the global config are written again with the same content -/
+theorem writeResp_same {f : RFault} {g : Glob} {d : RFiles} (h : respFires f g = false)
+    (h1 : d.lua = some g.lua) (h2 : g.ha ≠ 0 → d.ha = some g.ha) : writeResp f g d = d := by
+  unfold respFires at h
+  simp only [Bool.or_eq_false_iff] at h
+  unfold writeResp
+  dsimp only
+  rw [if_neg (by simp [h.1]), if_neg (by simp [h.2])]
+  by_cases hg : g.ha = 0
+  · simp [hg, ← h1]
+  · have : (g.ha != 0) = true := by simpa using hg
+    simp only [this, if_true]
+    rw [← h2 hg, ← h1]
+
+/-- what holds of the response files between the events of every history, whatever failed: while no rewrite
+is owed they hold the global config; HAProxy read them unless a reload is owed or queued; haproxy.cfg never
+names a file that does not exist -/
+structure RInv (w : RW p) : Prop where
+  a : w.fw.rewriteOwed = false → w.fw.g.committed = true → RespGood w
+  b : w.fw.rewriteOwed = false → w.fw.g.committed = true → w.fw.reloadOwed = false → w.fw.pending = false →
+        RespRunGood w
+  c : loadable w.disk = true
+
+theorem rinv_init : RInv ({} : RW p) :=
+  ⟨fun _ h => (by cases h), fun _ h => (by cases h), rfl⟩
+
+theorem respGate_real {ro : ROpt} (hg : ro.gated = false) (w : RW p) : respGate ro w = true := by
+  simp [respGate, hg]
+
+theorem updR_real {ro : ROpt} (hg : ro.gated = false) (sh : Sh p) (f : RFault) (w : RW p) :
+    updR ro sh f w =
+      { w := { fw := (upd ro.o sh (baseFault f w.glob true) (fwOf w)).w, glob := w.glob, globOld := w.glob
+               globPrev := none
+               disk := respDisk f w.glob true (upd ro.o sh (baseFault f w.glob true) (fwOf w)) w.disk
+               run := if (upd ro.o sh (baseFault f w.glob true) (fwOf w)).reloaded then
+                        loadR (respDisk f w.glob true (upd ro.o sh (baseFault f w.glob true) (fwOf w)) w.disk) else w.run }
+        err := (upd ro.o sh (baseFault f w.glob true) (fwOf w)).err } := by
+  unfold updR
+  simp [respGate_real hg, hg]
+
+/-- a forced rewrite only raises `rewriteOwed` -/
+theorem fwOf_spec (w : RW p) :
+    (fwOf w).g = w.fw.g ∧ (fwOf w).reloadOwed = w.fw.reloadOwed ∧ (fwOf w).pending = w.fw.pending ∧
+    ((fwOf w).rewriteOwed = false → w.fw.rewriteOwed = false) := by
+  unfold fwOf
+  split
+  · exact ⟨rfl, rfl, rfl, fun h => by cases h⟩
+  · exact ⟨rfl, rfl, rfl, id⟩
+
+theorem jinv_fwOf {o : Opt} {sh : Sh p} {w : RW p} (hj : JInv o sh w.fw) : JInv o sh (fwOf w) := by
+  unfold fwOf
+  split
+  · exact ⟨⟨hj.wi.s, hj.wi.g, hj.wi.hbc⟩, hj.q, fun h => by cases h⟩
+  · exact hj
+
+theorem qrunR_real {ro : ROpt} (hg : ro.gated = false) (sh : Sh p) (f : Fault) (w : RW p) :
+    qrunR ro sh f w =
+      { w := { w with fw := (qrun sh f w.fw).w, run := if (qrun sh f w.fw).reloaded then loadR w.disk else w.run }
+        err := (qrun sh f w.fw).err } := by
+  unfold qrunR
+  simp [hg]
+
+/-- one `HAProxyUpdate`, whatever fails in it (a response file included), keeps the invariant -/
+theorem updR_rinv {ro : ROpt} (hg : ro.gated = false) (hrep : ro.o.repaired = true) (sh : Sh p) (f : RFault)
+    {w : RW p} (hi : RInv w) : RInv (updR ro sh f w).w := by
+  rw [updR_real hg]
+  obtain ⟨u1, u2, u3, u4, u5, u6⟩ := upd_flow ro.o sh (baseFault f w.glob true) (fwOf w) hrep
+  obtain ⟨w1, w2, w3, w4⟩ := fwOf_spec w
+  rw [w1] at u4 u6; rw [w2, w3] at u6
+  generalize upd ro.o sh (baseFault f w.glob true) (fwOf w) = r at u1 u2 u3 u4 u5 u6 ⊢
+  -- a response file that fails keeps the update from writing haproxy.cfg
+  have hfire : respFires f w.glob = true → r.reached = true → r.wroteMain = false :=
+    fun h => u5 (baseFault_fires h)
+  have hnofire : r.wroteMain = true → respFires f w.glob = false := by
+    intro hm
+    cases hf : respFires f w.glob with
+    | false => rfl
+    | true => have := hfire hf (u2 hm); rw [hm] at this; cases this
+  -- the files after an update that wrote haproxy.cfg
+  have hgood : r.wroteMain = true →
+      RespGood { fw := r.w, glob := w.glob, globOld := w.glob, disk := respDisk f w.glob true r w.disk, run := w.run } := by
+    intro hm
+    have hr := u2 hm
+    have hd := writeResp_done w.disk (hnofire hm)
+    unfold RespGood
+    dsimp only
+    rw [respDisk_wrote hm hr]
+    exact ⟨hd.1, hd.2, rfl⟩
+  -- the files after an update that did not call writeConfig
+  have hskip : r.reached = false → respDisk f w.glob true r w.disk = w.disk := by
+    intro hr
+    have hm : r.wroteMain = false := by
+      cases h : r.wroteMain with
+      | false => rfl
+      | true => have := u2 h; rw [hr] at this; cases this
+    rw [respDisk_notMain hm]; simp [hr]
+  refine ⟨?_, ?_, ?_⟩
+  · intro hro _
+    dsimp only at hro ⊢
+    cases hr : r.reached with
+    | true =>
+      have := hgood (u3 hro hr)
+      exact this
+    | false =>
+      obtain ⟨h1, h2⟩ := u4 hro hr
+      have := hi.a (w4 h1) h2
+      unfold RespGood at this ⊢
+      dsimp only
+      rw [hskip hr]; exact this
+  · intro hro _ hrl hpe
+    dsimp only at hro hrl hpe ⊢
+    unfold RespRunGood
+    dsimp only
+    cases hre : r.reloaded with
+    | true => simp
+    | false =>
+      obtain ⟨h1, h2, h3, h4⟩ := u6 hro hre hpe hrl
+      have hg0 := hi.a (w4 h2) h1
+      have hb0 := hi.b (w4 h2) h1 h3 h4
+      have hsame : respDisk f w.glob true r w.disk = w.disk := by
+        cases hr : r.reached with
+        | false => exact hskip hr
+        | true =>
+          have hm := u3 hro hr
+          rw [respDisk_wrote hm hr]
+          rw [writeResp_same (hnofire hm) hg0.1 hg0.2.1]
+          have := hg0.2.2
+          cases hd : w.disk with
+          | mk a l mn => rw [hd] at this; simp only at this; rw [this]
+      simp only [Bool.false_eq_true, if_false]
+      rw [hsame]; exact hb0
+  · dsimp only
+    cases hm : r.wroteMain with
+    | true =>
+      have hr := u2 hm
+      have hd := writeResp_done w.disk (hnofire hm)
+      rw [respDisk_wrote hm hr]
+      unfold loadable
+      dsimp only
+      rw [hd.1]
+      by_cases hg0 : w.glob.ha = 0
+      · simp [hg0]
+      · have : (w.glob.ha != 0) = true := by simpa using hg0
+        simp [this, hd.2 hg0]
+    | false =>
+      rw [respDisk_notMain hm]
+      split
+      · exact writeResp_loadable _ _ _ hi.c
+      · exact hi.c
+
+theorem qrunR_rinv {ro : ROpt} (hg : ro.gated = false) (sh : Sh p) (f : Fault) {w : RW p} (hi : RInv w) :
+    RInv (qrunR ro sh f w).w := by
+  rw [qrunR_real hg]
+  obtain ⟨q1, q2, q3⟩ := qrun_flow sh f w.fw
+  refine ⟨?_, ?_, hi.c⟩
+  · intro hro hc
+    dsimp only at hro hc
+    rw [q2] at hro; rw [q1] at hc
+    exact hi.a hro hc
+  · intro hro hc hrl hpe
+    dsimp only at hro hc hrl hpe
+    unfold RespRunGood
+    dsimp only
+    cases hre : (qrun sh f w.fw).reloaded with
+    | true => simp
+    | false =>
+      obtain ⟨h1, h2⟩ := q3 hre hpe hrl
+      rw [q2] at hro; rw [q1] at hc
+      simp only [Bool.false_eq_true, if_false]
+      exact hi.b hro hc h2 h1
+
+/-- the invariant of every history of the two layers -/
+structure RJInv (ro : ROpt) (sh : Sh p) (w : RW p) : Prop where
+  j : JInv ro.o sh w.fw
+  r : RInv w
+
+theorem rjinv_init (ro : ROpt) (sh : Sh p) : RJInv ro sh ({} : RW p) := ⟨jinv_init ro.o sh, rinv_init⟩
+
+theorem stepR_rjinv {ro : ROpt} {sh : Sh p} (wf : sh.WF) (hg : ro.gated = false) (hrep : ro.o.repaired = true)
+    {w : RW p} (hi : RJInv ro sh w) (e : REv p) (hok : okEvR w e = true) : RJInv ro sh (stepR ro sh w e) := by
+  have hupd : ∀ f : RFault, RJInv ro sh (updR ro sh f w).w := by
+    intro f
+    refine ⟨?_, updR_rinv hg hrep sh f hi.r⟩
+    rw [updR_real hg]
+    exact upd_jinv wf hrep (jinv_fwOf hi.j) _
+  cases e with
+  | updHa => exact hupd .haResp
+  | updLua => exact hupd .luaResp
+  | glob g =>
+    have hc : w.fw.g.committed = false := by simpa [okEvR] using hok
+    refine ⟨hi.j, ⟨?_, ?_, hi.r.c⟩⟩
+    · intro _ h; have h' : w.fw.g.committed = true := h; rw [hc] at h'; cases h'
+    · intro _ h; have h' : w.fw.g.committed = true := h; rw [hc] at h'; cases h'
+  | ev e =>
+    by_cases hu : ∃ f, e = .upd f
+    · obtain ⟨f, rfl⟩ := hu
+      exact hupd (.base f)
+    by_cases hq : ∃ f, e = .qrun f
+    · obtain ⟨f, rfl⟩ := hq
+      refine ⟨?_, qrunR_rinv hg sh f hi.r⟩
+      show JInv ro.o sh (qrunR ro sh f w).w.fw
+      rw [qrunR_real hg]
+      exact qrun_jinv hi.j f
+    have hne : ∀ f, e ≠ .upd f := fun f h => hu ⟨f, h⟩
+    have hnq : ∀ f, e ≠ .qrun f := fun f h => hq ⟨f, h⟩
+    have hfw : (stepR ro sh w (.ev e)).fw = step ro.o sh w.fw e ∧ (stepR ro sh w (.ev e)).disk = w.disk ∧
+        (stepR ro sh w (.ev e)).run = w.run ∧ (e ≠ .full → (stepR ro sh w (.ev e)).glob = w.glob) := by
+      cases e with
+      | upd f => exact absurd rfl (hne f)
+      | qrun f => exact absurd rfl (hnq f)
+      | full => exact ⟨rfl, rfl, rfl, fun h => absurd rfl h⟩
+      | _ => exact ⟨rfl, rfl, rfl, fun _ => rfl⟩
+    obtain ⟨f1, f2, f3, f4⟩ := step_batch_flags ro.o sh w.fw e hne hnq
+    have hok' : okEv w.fw e = true := hok
+    refine ⟨?_, ⟨?_, ?_, ?_⟩⟩
+    · rw [hfw.1]; exact jinv_step_batch wf hi.j e hok' hne hnq
+    · intro hro hc
+      rw [hfw.1] at hro hc
+      rw [f1] at hro
+      obtain ⟨hc0, hnf⟩ := f4 hc
+      have := hi.r.a hro hc0
+      unfold RespGood at this ⊢
+      rw [hfw.2.1, hfw.2.2.2 hnf]; exact this
+    · intro hro hc hrl hpe
+      rw [hfw.1] at hro hc hrl hpe
+      rw [f1] at hro; rw [f2] at hrl; rw [f3] at hpe
+      obtain ⟨hc0, hnf⟩ := f4 hc
+      have := hi.r.b hro hc0 hrl hpe
+      unfold RespRunGood at this ⊢
+      rw [hfw.2.1, hfw.2.2.1]; exact this
+    · rw [hfw.2.1]; exact hi.r.c
+
+theorem runR_rjinv {ro : ROpt} {sh : Sh p} (wf : sh.WF) (hg : ro.gated = false) (hrep : ro.o.repaired = true)
+    (evs : List (REv p)) : ∀ {w : RW p}, RJInv ro sh w → allOkR ro sh w evs = true → RJInv ro sh (runR ro sh w evs) := by
+  induction evs with
+  | nil => intro w h _; exact h
+  | cons e evs ih =>
+    intro w h hok
+    simp only [allOkR, Bool.and_eq_true] at hok
+    exact ih (stepR_rjinv wf hg hrep h e hok.1) hok.2
 
 end HapVerif.C12
